@@ -328,7 +328,7 @@ func bridgeScenario(run *ev.Run, percent float64) *scenario {
 	for _, mc := range extra {
 		sc.acts = append(sc.acts, mintAction(w, mc))
 	}
-	sc.dq, sc.dt = 2, 3
+	sc.dq, sc.dt = 2, 4
 	sc.rule = "3 authorizers registered and staked through transactions (+1 unregistered key; second start state: registered but unstaked); BFS over mint payloads: every assignment of {absent, valid, forged-under-that-id} to the three authorizers with/without an entry of the unregistered key (53 sets), valid signatures over a different amount / nonce / receiver, duplicated entries in both orders, more entries than authorizers, submitter != receiver, nonce reuse with the same and with other content, amounts at min_mint and max_fee; oracle: minted => >= round(fraction*n) DISTINCT registered authorizers validly signed exactly (txn id, amount, nonce, receiver) (every signature re-verified by the monitor), submitter == receiver, nonce not minted before on this path, receiver gets amount - fee with 0 <= fee <= max_fee, bridge wallet pays exactly that, fee credited to authorizer stake pools; not minted => no tokens move"
 	return sc
 }
